@@ -247,6 +247,59 @@ static size_t fenced_compress(int entry, const P* p, size_t n, size_t c, int pla
     return r;
 }
 
+/* ------------------------------------------------------------------ decoder side of a case (g_out = the frame, g_input = its content) */
+static void set_cap_desc(const char* fmt, size_t a, int b, const char* tag, size_t k)
+{
+    char* q = strstr(g_desc, " CAP ");
+    (void)fmt;
+    if (q) snprintf(q, sizeof g_desc - (size_t)(q - g_desc), " CAP %zu %d %s %zu", a, b, tag, k);
+}
+
+/* exact / short / long capacities: error below the decoded size, exact content from it on */
+static void dec_cap(size_t n, size_t csize, size_t c, int placement)
+{
+    unsigned char* const ds = region_place(&g_dsrcR, csize, placement); unsigned char* dd; size_t d;
+    memcpy(ds, g_out, csize);
+    dd = region_place(&g_ddstR, c, placement);
+    set_cap_desc("", c, placement, "DECODE", 0);
+    d = ZSTD_decompressDCtx(g_dctx, dd, c, ds, csize);
+    if (region_check(&g_ddstR, dd, c, placement)) bad("decoder-write-outside-dst", c, d);
+    if (c < n) { if (!ZSTD_isError(d)) bad("decoder-accepted-short-capacity", c, d); }
+    else if (ZSTD_isError(d) || d != n || memcmp(dd, g_input, n)) bad("decoder-failed-with-exact-capacity", c, d);
+}
+
+/* truncated sources (read side fenced): an error, never a fault; the inspectors must not read past the end either */
+static void dec_trunc(size_t n, size_t csize, unsigned long long iseed, size_t k)
+{
+    size_t tl; unsigned char* ds; unsigned char* dd; size_t d; size_t const c = (k & 1) ? n : n / 2;
+    if (k < 20) tl = k; else if (k < 30) tl = csize > (k - 19) ? csize - (k - 19) : 0; else { rseed(iseed + k); tl = csize ? rnd() % csize : 0; }
+    if (tl > csize) return;
+    ds = region_place(&g_dsrcR, tl, 0); memcpy(ds, g_out, tl);
+    dd = region_place(&g_ddstR, c, 0);
+    set_cap_desc("", c, 0, "TRUNC", k);
+    d = ZSTD_decompressDCtx(g_dctx, dd, c, ds, tl);
+    if (region_check(&g_ddstR, dd, c, 0)) bad("decoder-write-outside-dst", c, d);
+    if (tl > 0 && tl < csize && !ZSTD_isError(d)) bad("decoder-accepted-truncated-frame", c, d);   /* 0 bytes = zero frames: valid */
+    (void)ZSTD_findFrameCompressedSize(ds, tl); (void)ZSTD_decompressBound(ds, tl); (void)ZSTD_getFrameContentSize(ds, tl);
+    (void)ZSTD_findDecompressedSize(ds, tl); (void)ZSTD_decompressionMargin(ds, tl);
+}
+
+/* damaged sources: anything may be returned, nothing may fault, a success must respect the capacity */
+static void dec_damage(size_t n, size_t csize, unsigned long long iseed, size_t k)
+{
+    unsigned char* ds = region_place(&g_dsrcR, csize, 0); unsigned char* dd; size_t d; unsigned j, nflips; size_t c;
+    memcpy(ds, g_out, csize);
+    rseed(iseed * 977 + k + n); nflips = 1 + rnd() % 3;
+    for (j = 0; j < nflips && csize; j++) { size_t at = (rnd() % 4 == 0) ? rnd() % (csize < 24 ? csize : 24) : rnd() % csize; ds[at] ^= (unsigned char)(1u << (rnd() % 8)); }
+    c = (k % 3 == 0) ? n : (k % 3 == 1) ? (n > 7 ? n - 7 : 0) : n + 5;
+    dd = region_place(&g_ddstR, c, (int)(k & 1));
+    set_cap_desc("", c, (int)(k & 1), "DAMAGE", k);
+    d = ZSTD_decompressDCtx(g_dctx, dd, c, ds, csize);
+    if (region_check(&g_ddstR, dd, c, (int)(k & 1))) bad("decoder-write-outside-dst", c, d);
+    if (!ZSTD_isError(d) && d > c) bad("decoder-returned-size-exceeds-capacity", c, d);
+    (void)ZSTD_findFrameCompressedSize(ds, csize); (void)ZSTD_decompressBound(ds, csize); (void)ZSTD_decompressionMargin(ds, csize);
+}
+
 static int cmp_sz(const void* a, const void* b) { size_t x = *(const size_t*)a, y = *(const size_t*)b; return x < y ? -1 : x > y; }
 
 static void sweep_case(int kind, unsigned long long iseed, size_t n, int entry, const P* p, int tier, unsigned caseId, size_t startCap)
@@ -329,50 +382,14 @@ static void sweep_case(int kind, unsigned long long iseed, size_t n, int entry, 
     printf("\n");
 
     /* ---- decompression side: capacities around the exact size, truncated and damaged sources ---- */
+    g_shared[0] = (size_t)-1;
     {   size_t dc[64]; size_t ndc = 0, k; size_t e = 0;
 #define DADD(v) do { long long v_ = (long long)(v); if (v_ >= 0 && (size_t)v_ <= n + 2 && ndc < 60) dc[ndc++] = (size_t)v_; } while (0)
         DADD(0); DADD(1); DADD(n / 2); DADD((long long)n - 1); DADD(n); DADD(n + 1);
         for (k = 0; k < g_nbBlocks && k < 6; k++) { e += g_blocks[k].regen; DADD((long long)e - 1); DADD(e); }
-        for (k = 0; k < ndc; k++) {
-            size_t const c = dc[k]; int const placement = (int)((caseId + k) & 1);
-            unsigned char* const ds = region_place(&g_dsrcR, csize, placement); unsigned char* dd; size_t d;
-            memcpy(ds, g_out, csize);
-            dd = region_place(&g_ddstR, c, placement);
-            { char* q = strstr(g_desc, " CAP "); if (q) snprintf(q, sizeof g_desc - (size_t)(q - g_desc), " CAP %zu %d DECODE", c, placement); }
-            d = ZSTD_decompressDCtx(g_dctx, dd, c, ds, csize);
-            if (region_check(&g_ddstR, dd, c, placement)) bad("decoder-write-outside-dst", c, d);
-            if (c < n) { if (!ZSTD_isError(d)) bad("decoder-accepted-short-capacity", c, d); }
-            else if (ZSTD_isError(d) || d != n || memcmp(dd, g_input, n)) bad("decoder-failed-with-exact-capacity", c, d);
-        }
-        /* truncated sources (read side fenced), then damaged sources: anything may be returned, nothing may fault,
-           a success must respect the capacity */
-        for (k = 0; k < 40; k++) {
-            size_t tl; unsigned char* ds; unsigned char* dd; size_t d; size_t c = (k & 1) ? n : n / 2;
-            if (k < 20) tl = k; else if (k < 30) tl = csize > (k - 19) ? csize - (k - 19) : 0; else { rseed(iseed + k); tl = csize ? rnd() % csize : 0; }
-            if (tl > csize) continue;
-            ds = region_place(&g_dsrcR, tl, 0); memcpy(ds, g_out, tl);
-            dd = region_place(&g_ddstR, c, 0);
-            { char* q = strstr(g_desc, " CAP "); if (q) snprintf(q, sizeof g_desc - (size_t)(q - g_desc), " CAP %zu 0 TRUNC %zu", c, tl); }
-            d = ZSTD_decompressDCtx(g_dctx, dd, c, ds, tl);
-            if (region_check(&g_ddstR, dd, c, 0)) bad("decoder-write-outside-dst", c, d);
-            if (tl > 0 && tl < csize && !ZSTD_isError(d)) bad("decoder-accepted-truncated-frame", c, d);   /* 0 bytes = zero frames: valid */
-            /* inspectors on the truncated source: must not read past it (fence) */
-            (void)ZSTD_findFrameCompressedSize(ds, tl); (void)ZSTD_decompressBound(ds, tl); (void)ZSTD_getFrameContentSize(ds, tl);
-            (void)ZSTD_findDecompressedSize(ds, tl); (void)ZSTD_decompressionMargin(ds, tl);
-        }
-        for (k = 0; k < (size_t)(tier ? 60 : 24); k++) {
-            unsigned char* ds = region_place(&g_dsrcR, csize, 0); unsigned char* dd; size_t d; unsigned j, nflips; size_t c;
-            memcpy(ds, g_out, csize);
-            rseed(iseed * 977 + k + n); nflips = 1 + rnd() % 3;
-            for (j = 0; j < nflips && csize; j++) { size_t at = (rnd() % 4 == 0) ? rnd() % (csize < 24 ? csize : 24) : rnd() % csize; ds[at] ^= (unsigned char)(1u << (rnd() % 8)); }
-            c = (k % 3 == 0) ? n : (k % 3 == 1) ? (n > 7 ? n - 7 : 0) : n + 5;
-            dd = region_place(&g_ddstR, c, (int)(k & 1));
-            { char* q = strstr(g_desc, " CAP "); if (q) snprintf(q, sizeof g_desc - (size_t)(q - g_desc), " CAP %zu %d DAMAGE %zu", c, (int)(k & 1), k); }
-            d = ZSTD_decompressDCtx(g_dctx, dd, c, ds, csize);
-            if (region_check(&g_ddstR, dd, c, (int)(k & 1))) bad("decoder-write-outside-dst", c, d);
-            if (!ZSTD_isError(d) && d > c) bad("decoder-returned-size-exceeds-capacity", c, d);
-            (void)ZSTD_findFrameCompressedSize(ds, csize); (void)ZSTD_decompressBound(ds, csize); (void)ZSTD_decompressionMargin(ds, csize);
-        }
+        for (k = 0; k < ndc; k++) dec_cap(n, csize, dc[k], (int)((caseId + k) & 1));
+        for (k = 0; k < 40; k++) dec_trunc(n, csize, iseed, k);
+        for (k = 0; k < (size_t)(tier ? 60 : 24); k++) dec_damage(n, csize, iseed, k);
     }
 }
 
@@ -497,6 +514,7 @@ static void frames_mode(unsigned long long seed, int tier, unsigned shard, unsig
     for (ci = 0; ci < ncases; ci++) {
         size_t msize = 0, psize = 0; unsigned nf, f; char tag[64];
         if (ci % nshards != shard) continue;
+        snprintf(g_desc, sizeof g_desc, "frames %llu %d %u %u case=%u", seed, tier, shard, nshards, ci);
         rseed(seed * 4099 + ci);
         nf = 1 + rnd() % 4;
         for (f = 0; f < nf; f++) {
@@ -620,6 +638,19 @@ int main(int argc, char** argv)
         if (entry == E_SEQ) prepare_seqs(&p, g_input, n);
         snprintf(g_desc, sizeof g_desc, "replay kind=%d n=%zu entry=%d cap=%zu placement=%d", kind, n, entry, cap, placement);
         { static size_t dummy[1]; g_shared = dummy; }
+        if (argc > 19 && (!strcmp(argv[19], "DECODE") || !strcmp(argv[19], "TRUNC") || !strcmp(argv[19], "DAMAGE"))) {
+            /* decoder-side replay: produce the frame with ample room, then redo the recorded decoder step */
+            size_t const k = argc > 20 ? (size_t)strtoull(argv[20], NULL, 10) : 0;
+            size_t const csize = fenced_compress(entry, &p, n, ZSTD_compressBound(n) + 64, 0, 1);
+            if (ZSTD_isError(csize)) { printf("RESULT ample compression failed\n"); return 1; }
+            memcpy(g_out, g_dstR.hi - (ZSTD_compressBound(n) + 64), csize);
+            snprintf(g_desc, sizeof g_desc, "replay kind=%d n=%zu entry=%d CAP %zu %d %s %zu", kind, n, entry, cap, placement, argv[19], k);
+            if (!strcmp(argv[19], "DECODE")) dec_cap(n, csize, cap, placement);
+            else if (!strcmp(argv[19], "TRUNC")) dec_trunc(n, csize, iseed, k);
+            else dec_damage(n, csize, iseed, k);
+            printf("RESULT decoder step %s %zu done bad=%u\n", argv[19], k, g_nbBad);
+            return g_nbBad ? 1 : 0;
+        }
         r = fenced_compress(entry, &p, n, cap, placement, 1);
         if (ZSTD_isError(r) && cap >= ZSTD_compressBound(n)) bad("bound-capacity-rejected", cap, r);
         printf("RESULT cap=%zu bound=%zu ret=%zu (%s) bad=%u\n", cap, ZSTD_compressBound(n), r, ZSTD_isError(r) ? ZSTD_getErrorName(r) : "ok", g_nbBad);
